@@ -18,9 +18,11 @@ META = {
                    'ZoneManagerImpl wrappers.',
     'decided': 'every lookup touches only registry entries, performs no wrapping index arithmetic and terminates, for '
                'registries of any size; an index is returned only when the name/id at that index compares equal; '
-               'not-found returns the sentinel; the manager maps not-found to the error zone',
-    'not_decided': 'completeness of the binary search (that a present name is always found) relies on the registry being '
-                   'sorted the way isSorted() tests, which C11 decides for the shipped registries',
+               'not-found returns the sentinel; the manager maps not-found to the error zone; isSorted() answers true only after '
+               'every adjacent pair was compared in order (ghost index variables in the DBM), and the binary search is reached only '
+               'on paths where mIsSorted holds and discards the half the order excludes',
+    'not_decided': 'that the bisection, run on a sorted registry, ends on the present name (loop invariant "the name, if present, '
+                   'lies in [a, b)"): only its direction, termination and bounds are decided',
     'assumptions': ['clang 14 parser and template instantiation (both instantiations are analysed)',
                     'strcmp-like comparators return 0 exactly for equal strings',
                     'a registry of registrySize entries is what the constructor was given'],
